@@ -64,6 +64,8 @@ func init() {
 	extFuncs[coreMod+"/consensus.validateEphemeralSiafundElement"] = "validateEphemeralSiafundElement"
 	tcodeRoots = append(tcodeRoots, "consensus.validateV2SpendPolicy")
 	regionRoots = append(regionRoots,
+		regionSpec{fn: "consensus.validateV2Siacoins", name: "inputFresh", from: "if txid, ok := ms.spent(sci.Parent.ID); ok", to: "spent[sci.Parent.ID] = i"},
+		regionSpec{fn: "consensus.validateV2Siafunds", name: "inputFresh", from: "if txid, ok := ms.spent(sfi.Parent.ID); ok", to: "spent[sfi.Parent.ID] = i"},
 		regionSpec{fn: "consensus.validateV2Siacoins", name: "inputMember", from: "if sci.Parent.StateElement.LeafIndex == types.UnassignedLeafIndex", to: "if err := validateV2SpendPolicy"},
 		regionSpec{fn: "consensus.validateV2Siafunds", name: "inputMember", from: "if sfi.Parent.StateElement.LeafIndex == types.UnassignedLeafIndex", to: "if err := validateV2SpendPolicy"},
 	)
